@@ -33,14 +33,14 @@ def wrap(bg, call, rng):
 
 def histories(bg, rng, tier):
     reps = 4 if tier == "thorough" else 1
-    for name in sorted(bg.res):
+    for name in bg.emitting_methods():
         if name in ("type_pointer",) or True:
             for _ in range(reps):
                 c = bg.call(name)
                 if c:
                     yield wrap(bg, c, rng)
     # random complete histories
-    names = sorted(bg.res)
+    names = bg.emitting_methods()
     mod_level = [n for n in names if bg.sink_of(n) in ("section", "dedup_type", "memory_model") and not n.endswith("_bit64")]
     blk = [n for n in names if bg.sink_of(n) == "block" and not n.startswith("insert_")]
     term = [n for n in names if bg.sink_of(n) == "end_block" and not n.startswith("insert_")]
@@ -132,6 +132,7 @@ def run(rep):
         rng = random.Random(rep.seed)
         lay = layout.Layout(g)
         bg = bldgen.BuilderGen(g, p.facts, rng)
+        bg.lay = lay
         hs = list(histories(bg, rng, rep.tier))
         lines = ["bld " + " | ".join(h) for h in hs]
         files, err = streams.serve_both("c06", lines, p.exe, mexe)
